@@ -60,6 +60,7 @@ pub trait VecZnxToMut {
     fn to_mut(&mut self) -> (r: VecZnx<&mut [u8]>)
       ensures r.n == old(self).smut_n(), r.cols == old(self).smut_cols(), r.size == old(self).smut_size(), r.wf() == old(self).smut_wf(),
         forall|i: int, j: int| #[trigger] r.limb(i, j) == old(self).smut_limb(i, j),
+        forall|i: int, j: int| #[trigger] limb_of(v64(r.data@), r.n as int, r.cols as int, i, j) == old(self).smut_limb(i, j),   // the same clause unfolded (for views never named in the caller)
         // write-through: after the borrow ends the owner shows what the view holds
         final(self).smut_n() == old(self).smut_n(), final(self).smut_cols() == old(self).smut_cols(), final(self).smut_size() == old(self).smut_size(),
         final(self).smut_wf() == old(self).smut_wf(), final(self).smut_fut() == old(self).smut_fut(),
